@@ -336,8 +336,10 @@ func Scratch(out string) string {
 
 func Must(err error) {
 	if err != nil {
+		// exit code 3 = trouble in the harness's own infrastructure (check.py retries once, then reports
+		// HARNESS-ERROR without a VIOLATION line); a panic of the code under test exits with Go's code 2.
 		fmt.Fprintln(os.Stderr, "harness error:", err)
-		os.Exit(2)
+		os.Exit(3)
 	}
 }
 
